@@ -33,8 +33,32 @@ def dy(rng, lo, hi, step=0.25):
     return lo + step * rng.randrange(n + 1)
 
 
-def gen_spec(rng, size=None, allow=None, lumi_cfg=True):
-    """returns (spec dict with 'channels' and 'parameters', poi name or None)"""
+# modifier families for stratified generation: `alpha` stands for normsys + histosys (one Gaussian-constrained scalar),
+# the other families are the modifier types themselves
+FAMILIES = ('normfactor', 'lumi', 'alpha', 'shapefactor', 'shapesys', 'staterror')
+FAMILY_TYPES = dict(normfactor=('normfactor',), lumi=('lumi',), alpha=('normsys', 'histosys'), shapefactor=('shapefactor',),
+                    shapesys=('shapesys',), staterror=('staterror',))
+# every combination of the constrained families (Poisson-constrained shapesys, Gaussian-constrained staterror, alpha, lumi)
+CONSTRAINED_COMBOS = [tuple(f for f, on in zip(('shapesys', 'staterror', 'alpha', 'lumi'), bits) if on)
+                      for bits in [(a, b, c, d) for a in (1, 0) for b in (1, 0) for c in (0, 1) for d in (0, 1)] if bits[0] or bits[1]]
+
+
+def gen_profile(rng):
+    """a random subset of the modifier families (at least one of them)"""
+    p = dict(normfactor=0.8, lumi=0.2, alpha=0.35, shapefactor=0.3, shapesys=0.6, staterror=0.6)
+    fams = [f for f in FAMILIES if rng.random() < p[f]]
+    return tuple(fams or [rng.choice(FAMILIES)])
+
+
+def gen_spec(rng, size=None, allow=None, lumi_cfg=True, profile=None):
+    """returns (spec dict with 'channels' and 'parameters', poi name or None).
+    profile: tuple of FAMILIES the modifiers are drawn from (with raised per-sample probabilities, so that the families of
+    a small profile really occur); by default 30% of the specs get a random profile, the others draw from all types."""
+    if allow is None and profile is None and rng.random() < 0.3:
+        profile = gen_profile(rng)
+    boost = profile is not None
+    if boost:
+        allow = [t for f in profile for t in FAMILY_TYPES[f]]
     allow = set(allow or TYPES)
     nch = size or rng.choice([1, 1, 2, 2, 3, 4])
     chnames = rng.sample(['SR', 'CR1', 'CR2', 'VR', 'A', 'b_ch', 'ZZ'], nch)
@@ -67,7 +91,7 @@ def gen_spec(rng, size=None, allow=None, lumi_cfg=True):
             if 'normfactor' in allow and (s == 'signal' or rng.random() < 0.3):
                 for nm in rng.sample(nf_pool, rng.choice([1, 1, 2])):
                     mods.append({'name': nm, 'type': 'normfactor', 'data': None})
-            if 'lumi' in allow and rng.random() < 0.3:
+            if 'lumi' in allow and rng.random() < (0.5 if boost else 0.3):
                 mods.append({'name': 'lumi', 'type': 'lumi', 'data': None})
                 has_lumi = True
             if 'normsys' in allow:
@@ -77,11 +101,11 @@ def gen_spec(rng, size=None, allow=None, lumi_cfg=True):
                 for nm in rng.sample(al_pool, rng.choice([0, 0, 1, 2])):
                     mods.append({'name': nm, 'type': 'histosys', 'data': {
                         'lo_data': [max(0.0, d - dy(rng, 0, 3)) for d in data], 'hi_data': [d + dy(rng, 0, 3) for d in data]}})
-            if 'shapefactor' in allow and rng.random() < 0.2:
+            if 'shapefactor' in allow and rng.random() < (0.4 if boost else 0.2):
                 nm = rng.choice(sf_pool)
                 if sf_bins.setdefault(nm, nb) == nb:
                     mods.append({'name': nm, 'type': 'shapefactor', 'data': None})
-            if 'shapesys' in allow and rng.random() < 0.3:
+            if 'shapesys' in allow and rng.random() < (0.55 if boost else 0.3):
                 used_shapesys += 1
                 mods.append({'name': 'shapesys_%d' % used_shapesys, 'type': 'shapesys',
                              'data': [0.0 if rng.random() < 0.12 else dy(rng, 0.25, 4.0) for _ in data]})
@@ -91,7 +115,7 @@ def gen_spec(rng, size=None, allow=None, lumi_cfg=True):
                 if stat_multi and want is not None and c == chnames[1]:
                     carry = s in want
                 else:
-                    carry = rng.random() < 0.4
+                    carry = rng.random() < (0.6 if boost else 0.4)
                 if carry:
                     mods.append({'name': nm, 'type': 'staterror', 'data': [0.0 if rng.random() < 0.1 else dy(rng, 0.25, 3.0) for _ in data]})
             rng.shuffle(mods)
@@ -166,8 +190,21 @@ def gen_spec(rng, size=None, allow=None, lumi_cfg=True):
                     params.append({'name': m['name'], 'fixed': rng.random() < 0.8 and False})
     rng.shuffle(params)
     spec['parameters'] = params
-    scalars = [nm for nm, (kind, n) in info.items() if kind in ('normfactor',)]
-    poi = rng.choice(scalars) if scalars and rng.random() < 0.85 else None
+    # the parameter of interest ranges over every parameter with exactly one component: normfactors (most often), but also
+    # normsys/histosys alphas, lumi, and the one-component NON-scalar sets (one-bin shapefactor, one-bin shapesys / staterror
+    # gamma), which are registered after the bin-wise sets of larger channels
+    singles = [nm for nm, (kind, n) in info.items() if n == 1]
+    nfs = [nm for nm in singles if info[nm][0] == 'normfactor']
+    late = [nm for nm in singles if info[nm][0] in ('shapefactor', 'shapesys', 'staterror')]
+    r = rng.random()
+    if r < 0.12 or not singles:
+        poi = None
+    elif r < 0.6 and nfs:
+        poi = rng.choice(nfs)
+    elif late and rng.random() < 0.6:
+        poi = rng.choice(late)
+    else:
+        poi = rng.choice(singles)
     return spec, poi
 
 
@@ -337,7 +374,7 @@ def impl_config(model):
         par_order=list(cfg.par_order),
         par_slices=[[cfg.par_slice(n).start, cfg.par_slice(n).stop] for n in cfg.par_order],
         npars=cfg.npars, inits=list(cfg.suggested_init()), fixed=list(cfg.suggested_fixed()),
-        auxdata=list(cfg.auxdata), aux_order=list(cfg.auxdata_order), poi_index=cfg.poi_index,
+        auxdata=list(cfg.auxdata), aux_order=list(cfg.auxdata_order), poi_index=cfg.poi_index, poi_name=cfg.poi_name,
         par_names=list(cfg.par_names), nmaindata=cfg.nmaindata, nauxdata=cfg.nauxdata,
         parameters=list(cfg.parameters),
         ptypes=[('unconstrained' if not cfg.param_set(n).constrained else cfg.param_set(n).pdf_type) for n in cfg.par_order],
